@@ -60,3 +60,10 @@ CLAIMS['C05'] = dict(
           'local matcher requires position base+i. Answer fields (count, bytes, range, xorb hash) originate from the guarded accumulators. Holds for all inputs including colliding 64-bit '
           'prefixes because the guard is the 256-bit comparison. Not decided: index arithmetic values, the truncated-prefix table search (C09), last-writer-wins in the manager map.'),
     note='Comparisons are canonicalised (==/!=, operand order, PartialEq calls, negation).')
+CLAIMS['C18'] = dict(
+    technique='static analysis: path-sensitive must-pass-through (HMAC store before every sink, default-key bypass), edge dominance of expiry comparisons, provenance of footer fields and table counts',
+    text=('Decides: on export every chunk hash that is serialised or indexed passed the HMAC with the export key unless the key is the default; xorb headers and file entries are written as read; '
+          'the footer records the key; the keyed chunk table is sorted before written; each optional table is written exactly under its flag with count = rows written or 0; expiry = now + validity; '
+          'at query time comparison and probe use the keyed hash (shared with C05); loading is guarded by load_expired or now <= expiry, deletion by expiry + grace <= now; register_shards is fed only '
+          'from validity-filtered lists or freshly written files. All-paths facts over every shard content and flag combination. Equality of answers with the original shard\'s and the time arithmetic are not decided.'),
+    note='Trusted: DataHash::hmac is the keyed hash.')
